@@ -241,7 +241,9 @@ def case_t0(ctx, rng, idx):
     rng.shuffle(items)                      # labels need not first appear in increasing order
     terms = dict(items)
     name = [i for i in range(n)]            # name[i] = label of the variable with index i
+    matrix_case = True
     if rng.random() < 0.35:
+        matrix_case = False
         # a labelled model with a user-chosen enumeration (listed in an order unrelated to the indices): the initial
         # state is given by label; only the energy claims apply (the exact sweep order is stated for Matrix models)
         tn = LABELLED[tn]
@@ -327,10 +329,10 @@ def case_t0(ctx, rng, idx):
         if frac(r.value) != p.value(st):
             ctx.violation("T0:value-mismatch", "value %r but model at state is %r" % (r.value, float(p.value(st))), w)
             return
-        if in_order and name == list(range(n)) and r.state != cur_l:       # the exact sweep order is stated for integer-labelled Matrix models
+        if in_order and matrix_case and r.state != cur_l:       # the exact sweep order is stated for integer-labelled Matrix models
             ctx.violation("T0:state-differs-from-reference-sweep", "final %r, reference sweep %r (init %r)" % (r.state, cur_l, kw["initial_state"]), w)
             return
-    if in_order and name == list(range(n)):
+    if in_order and matrix_case:
         ctx.count("T0:reference-sweeps")
         ctx.count("T0:flips-seen", flips)
     if n >= 2:
@@ -399,6 +401,24 @@ def case_chi2(ctx, rng, idx):
     big = exp >= 10
     o = list(obs[big]) + ([obs[~big].sum()] if (~big).any() and exp[~big].sum() > 0 else [])
     e = list(exp[big]) + ([exp[~big].sum()] if (~big).any() and exp[~big].sum() > 0 else [])
+    if len(e) > len(exp[big]) and e[-1] < 10 and len(e) >= 2:
+        # the rare states together are still too rare for the chi-square approximation: judge them by the exact Poisson tail
+        # and fold them into the largest bin for the chi-square of the rest
+        lam_, k_ = float(e[-1]), int(o[-1])
+        term, cdf = math.exp(-lam_), 0.0
+        for j in range(k_):
+            cdf += term
+            term *= lam_ / (j + 1)
+        tail = max(0.0, 1.0 - cdf)
+        ctx.count("chi2:rare-bin-poisson-tests")
+        if k_ > 0 and tail < P_THRESHOLD:
+            ctx.violation("chi2:rare-states-too-frequent:" + ("in-order" if in_order else "random-order"),
+                          "states of total expectation %.3g observed %d times (Poisson tail %.3g)" % (lam_, k_, tail), w)
+            return
+        i_max = max(range(len(e) - 1), key=lambda i_: e[i_])
+        o[i_max] += o[-1]
+        e[i_max] += e[-1]
+        o, e = o[:-1], e[:-1]
     if len(e) < 2:
         ctx.cat("chi2:degenerate-law")
         if abs(sum(o) - N) > 0:
